@@ -19,7 +19,7 @@ def make_program(rnd):
                 c['sectors'] = [s for s in c['sectors'] if s['kind'] not in ('gov', 'tf')]
                 c['exo'] = []
     prog = dict(external=(n > 1 and not same_currency and rnd.random() < 0.7), countries=countries, horizon=4)
-    prog['embed'] = rnd.choice(['none', 'global', 'global_sum'])
+    prog['embed'] = rnd.choice(['none', 'global', 'global_sum', 'product_term', 'suffix_clash'])
     return prog
 
 
@@ -32,10 +32,32 @@ def run_program(prog):
         mod.AddGlobalEquation('GLOB', 'twice household wealth', '2*' + hh.GetVariableName('F'))
     if prog['embed'] == 'global_sum':
         mod.AddGlobalEquation('GLOB', 'wealth plus income', hh.GetVariableName('F') + ' + ' + hh.GetVariableName('F') + ' + 0*' + hh.GetVariableName('INC'))
+    if prog['embed'] == 'product_term':
+        # placeholders inside a product term (a 'simple' term is NAME or NAME*NAME / NAME/NAME)
+        hh.AddVariable('XTRA', 'wealth times a parameter', '')
+        hh.AddTermToEquation('XTRA', hh.GetVariableName('F') + '*' + hh.GetVariableName('AlphaFin'))
+    if prog['embed'] == 'suffix_clash':
+        # a hand-written canonical name whose sector code ends in _<ID of the placeholder's sector>, next to that placeholder
+        from sfc_models.sector import Sector
+        co = hh.Parent
+        other = Sector(co, 'B_%d' % hh.ID, has_F=False)
+        other.AddVariable('AlphaFin', 'a constant with the same local name as the household parameter', '1.5')
+        prefix = (co.Code + '_') if len(prog['countries']) > 1 else ''
+        mod.AddGlobalEquation('GLOB', 'parameter less a constant', hh.GetVariableName('AlphaFin') + ' - ' + prefix + 'B_%d__AlphaFin' % hh.ID)
     mod.main()
     bad = M.check_closed(mod, prog)
     if bad:
         return bad
+    if prog['embed'] == 'product_term':
+        ts = mod.EquationSolver.TimeSeries
+        for k in range(1, 4):
+            if not M.close(ts[hh.GetVariableName('XTRA')][k], ts[hh.GetVariableName('F')][k] * ts[hh.GetVariableName('AlphaFin')][k]):
+                return 'XTRA = F*AlphaFin does not hold in period %d' % k
+    if prog['embed'] == 'suffix_clash':
+        ts = mod.EquationSolver.TimeSeries
+        for k in range(1, 4):
+            if not M.close(ts['GLOB'][k], ts[hh.GetVariableName('AlphaFin')][k] - 1.5):
+                return 'model-level equation GLOB = AlphaFin - 1.5 does not hold in period %d: %r vs %r' % (k, ts['GLOB'][k], ts[hh.GetVariableName('AlphaFin')][k] - 1.5)
     if prog['embed'] in ('global', 'global_sum'):
         ts = mod.EquationSolver.TimeSeries
         f = hh.GetVariableName('F')
